@@ -19,7 +19,7 @@ GROUPS = {
     'logical': [('opt', I), ('union', I, S), ('union', I, ('list', I)), ('xor', ('rule', I, {'gt': 0}), ('rule', I, {'lt': 0})),
                 ('andnot', ('float',), ('rule', ('float',), {'const': 0.0})), ('union', ('dc', 'TInner'), I),
                 ('union', ('rule', I, {'gt': 0}), S)],
-    'dataclass': [('dc', 'TInner'), ('dc', 'TOuter')],
+    'dataclass': [('dc', 'TInner'), ('dc', 'TOuter'), ('dc', 'TNoIn')],
 }
 TYPES = {}
 
